@@ -29,7 +29,7 @@ CHECKS = {
          NOTE_COMMON + 'Big-endian host = goto-cc --big-endian with __BYTE_ORDER__ overridden.', 'CBMC code contracts on inline functions, LE and BE configurations'),
  'C14': ('proof', 'All contracts are phrased over bytes in wire order; the same contracts are re-verified with the library compiled for a big-endian host (big-endian memory model + the big-endian branch of Byteorder.h): the two generic routines with their loop contracts, byte-order helpers, CAN builders, VSS pad, and the generated accessor contracts (quick: TSCF, CAN, VSS; thorough: all formats).', '§5 C14',
          NOTE_COMMON + 'Big-endian host is modelled by CBMC (--big-endian), no big-endian hardware or compiler is involved.', 're-verification of the contract suite under a big-endian configuration'),
- 'C16': ('proof', 'Footprint premise only: every library function under contract carries an assigns clause naming only memory reachable from its parameters and DFCC turns every store into an obligation against it; a symbol-table scan of every library TU proves all static-lifetime objects const. The inference from disjoint footprints to race freedom under every schedule is the textbook argument and is NOT mechanised; no schedule is explored.', '§5 C16',
+ 'C16': ('other', 'Footprint premise only: every library function under contract carries an assigns clause naming only memory reachable from its parameters and DFCC turns every store into an obligation against it; a symbol-table scan of every library TU proves all static-lifetime objects const. The inference from disjoint footprints to race freedom under every schedule is the textbook argument and is NOT mechanised; no schedule is explored.', '§5 C16',
          NOTE_COMMON + 'Non-interference => data-race freedom is argued by hand.', 'DFCC frame obligations + static-lifetime symbol scan'),
  'C17': ('proof', 'Shared fields are single oracle rows; per pair (canonical view, other view) a client lemma proves read-identically, write-through-one/read-through-other in both directions for every shared field, with all four accessors replaced by their contracts.', '§5 C17',
          NOTE_COMMON, 'client lemmas over generated contracts'),
@@ -40,6 +40,11 @@ CHECKS = {
          NOTE_COMMON + 'Round trip follows from encoder and decoder being proved against the same reference encoding.', 'CBMC code contracts per datatype + loop contracts on the array loops'),
  'C10': ('other', 'BOUNDED stand-in, not a proof: packer, counter and unpacker are enforced against their contracts for lists of at most 3 (quick) / 5 (thorough) strings, every string length symbolic 0..65535, requested counts greater/equal/smaller than the packed count, exact-extent source and destination buffers, loops unwound with unwinding assertions; plus the type-level fact that the counter\'s return type carries every possible count. Prefix-sum offsets cannot be expressed in CBMC loop invariants without quantifiers.', '§5 C10',
          NOTE_COMMON + 'Bound on the number of strings; lists longer than the bound are not covered.', 'CBMC code contracts with bounded unwinding (unwinding assertions)'),
+
+ 'C18': ('other', 'Partial: the ACF-CAN listener receive path (acf-can-listener.c:new_packet, #included unmodified) is enforced against a contract for ANY datagram and recv result in all its modes: every pointer/bounds obligation, the loop contract with a decreasing variant (bounded time), and return >= 0 (able to take the next datagram); library getters are replaced by their contracts, whose exact-extent preconditions turn a length field that reaches past the datagram into a failed call-site obligation. The CVF, AAF, hello-world, ACF-VSS and CRF listeners are NOT under contract.', '§5 C18',
+         NOTE_COMMON + 'Trusted contracts for recv / write / memcpy; printf("%s") over-reads and stale-byte reads are invisible to CBMC.', 'CBMC code contracts on the example receive function + loop contract'),
+ 'C19': ('other', 'Talker: prepare_acf_packet (#included unmodified) is enforced against the ACF-CAN reference encoding of the input frame (type, length, pad, RTR/EFF/BRS/FDF/ESI, identifier, data, pad bytes, returned byte count) for every classic/FD frame - a proof. Listener: BOUNDED stand-in - the real listener and library are model-checked on the reference encoding (written from the oracle, not the library) of 1..2 (quick) / 1..3 (thorough) symbolic frames per packet, checking that exactly those frames reach the CAN socket with identical id, flags, length and data. The talker main loop (length accumulation, socket I/O) is not under contract.', '§5 C19',
+         NOTE_COMMON + 'recv/write stubs, bounded memcpy stand-in, frames per packet bounded.', 'CBMC code contract (talker builder) + bounded model checking (listener)'),
 }
 NA = {
  'C15': 'alignment- and optimisation-level behaviour are outside CBMC\'s byte-addressed memory model and outside source-level contracts (DESIGN.md §5 C15)',
